@@ -483,12 +483,14 @@ func (p *Program) buildCanon() (*Canon, error) {
 		if _, known := baseFuncs[k]; known {
 			c.inBase[f] = true
 		}
-		if _, known := baseFuncs[k]; known || exported(f.Name()) {
+		// API names are never translated: exported functions, and exported methods of
+		// exported types. A capitalised method of an unexported type is not API.
+		if _, known := baseFuncs[k]; known || (exported(f.Name()) && (k.recv == "" || exported(k.recv))) {
 			continue
 		}
 		var cands []*baseFunc
 		for bk, bf := range baseFuncs {
-			if usedF[bf] || cur[bk] || exported(bf.Name) || bk.pkg != k.pkg || bk.recv != k.recv {
+			if usedF[bf] || cur[bk] || (exported(bf.Name) && (bk.recv == "" || exported(bk.recv))) || bk.pkg != k.pkg || bk.recv != k.recv {
 				continue
 			}
 			if bf.Sig == sigOf(f) {
